@@ -816,11 +816,13 @@ void Model::assign_from(const IMachine& o) {
 IMachine* Model::move_out() {
     if (!mp()) return nullptr;
     Model* n = new Model(*this);
+    for (auto& I : inst_) I.pool.clear();      // the pending events went with the move
     return n;
 }
 bool Model::move_assign_from(IMachine& o) {
     if (!mp()) return false;
     assign_from(o);
+    for (auto& I : static_cast<Model&>(o).inst_) I.pool.clear();
     return true;
 }
 bool Model::save(int, std::string& out) {
@@ -878,8 +880,18 @@ void Model::snapshot(Snap& s) const {
         }
     }
 }
+long Model::live_tracked() const {
+    long n = 0;
+    auto tr = [&](int ev) { return ev >= 0 && d_->events[ev].size_class >= 2; };
+    for (auto& I : inst_) {
+        for (auto& q : I.q_msg) if (tr(q.e.ev)) ++n;
+        for (auto& q : I.q_def) if (tr(q.e.ev)) ++n;
+        for (auto& q : I.pool) if (q.kind == 0 && tr(q.e.ev)) ++n;
+    }
+    return n;
+}
 void Model::clear_queue(int which) {
-    if (mp()) return;
+    if (mp()) { if (which == 0) inst_[0].pool.clear(); return; }
     if (which == 0) inst_[0].q_msg.clear();
     if (which == 1 && M(0).has_deferred) inst_[0].q_def.clear();
 }
